@@ -5,6 +5,7 @@ import re
 from vp.core import VerusJob, KaniJob
 from vp.verus_run import VerusFile
 from vp.kani_run import Harness
+from vp.extract import ExtractError
 
 L = "crates/cache/src/lib.rs"
 
@@ -24,8 +25,8 @@ TRUSTED = {
     r"fn clone\(&self\)": "E3': #[derive(Clone)] on FileEntry / Manifest replaced by a trusted spec: the clone has the same view (field-wise copy)",
     r"fn default\(\)": "E3': #[derive(Default)] on Manifest replaced by a trusted spec: schema 0, empty key, no files",
     r"\[std::mem::take\]": "O5: mem::take returns the old value and leaves T::default()",
-    r"\[u32::to_le_bytes\]": "O5: u32::to_le_bytes = the four bytes, least significant first",
-    r"\[u32::from_le_bytes\]": "O5: u32::from_le_bytes = b0 | b1<<8 | b2<<16 | b3<<24",
+    r"fn vp_u32_to_le_bytes": "O5: u32::to_le_bytes = the four bytes, least significant first (checked against the real std function by the Kani job)",
+    r"fn vp_u32_from_le_bytes": "O5: u32::from_le_bytes = b0 | b1<<8 | b2<<16 | b3<<24 (checked against the real std function by the Kani job)",
     r"split_first_chunk": "O5: <[T]>::split_first_chunk::<N> = None if shorter than N, else (first N, rest)",
     r"\]::to_vec\]|to_vec": "O5: <[T]>::to_vec = element-wise clone",
     r"fn vp_strip_prefix": "O12: <[u8]>::strip_prefix outlined: Some(rest) iff the slice starts with the prefix",
@@ -43,10 +44,15 @@ TRUSTED = {
     r"fn vp_exists": "O14: Path::exists outlined: true iff the ghost disk has a file at that path",
     r"fn vp_fs_read": "O14: fs::read(..).ok() outlined: may fail; delivered bytes are the file's bytes (recorded in the history variable last_blob_read)",
     r"fn vp_read_fragment_dirs|fn vp_read_dir_files|fn vp_referenced|fn vp_has_fragment_ext|fn vp_entry_path|fn vp_remove_file|fn vp_set_contains": "O15: gc's directory walk / path set outlined (see gc clause)",
+    r"pub struct VpPathSet|pub struct VpDirEntry": "O15: opaque stand-ins for HashSet<PathBuf> / fs::DirEntry",
     r"uninterp spec fn": "uninterpreted models: toml_parse, spec_hash, blob_rel, path_rel",
 }
 
 CANARIES = [
+    ("vp_canary_consistent", "proof fn vp_canary_consistent() ensures false { broadcast use group_store_axioms; lemma_blob_decode_steps(Seq::<u8>::empty()); }"),
+    ("vp_canary_view", "proof fn vp_canary_view(a: String, b: String, m: Map<String, FileEntry>, k: &str) requires a@ != b@, m.contains_key(a), !m.contains_key(b), k@ == a@ ensures false "
+                       "{ broadcast use group_store_axioms; assert(key_of(k@) == a); assert(fv(m).contains_key(a@)); assert(!fv(m).contains_key(b@)); }"),
+    ("vp_canary_save_pre", "proof fn vp_canary_save_pre(s: Store, fs: VpFs) requires laws(), wf(s, fs), s.on_disk_current, !save_skips(sv(s)), blobs_addressed(fs) ensures false { broadcast use group_store_axioms; }"),
     ("vp_canary_wf", "proof fn vp_canary_wf(s: Store, fs: VpFs) requires laws(), wf(s, fs), s.on_disk_current, blobs_addressed(fs), fv(s.next_files@).len() > 0 ensures false {}"),
     ("vp_canary_decode", "proof fn vp_canary_decode(d: Seq<u8>) requires blob_decode(d) is Some, d.len() > 12 ensures false {}"),
     ("vp_canary_axioms", "proof fn vp_canary_axioms(a: String, b: String, m: Map<String, FileEntry>, k: &str) requires a@ != b@, m.contains_key(a), !m.contains_key(b), k@ == a@ ensures false {}"),
@@ -69,12 +75,35 @@ UPD_GHOST = """    proof {
     }"""
 
 
+SAVE_SPEC = """    requires laws(), wf(*old(self), *old(fs)),
+    ensures
+        same_handles(*final(self), *old(self)),
+        sv(*final(self)).saved.schema == sv(*old(self)).saved.schema, sv(*final(self)).saved.key == sv(*old(self)).saved.key,
+        sv(*final(self)).next == IMap::<Seq<char>, EntryV>::empty(),
+        // unchanged re-scan: manifest untouched, write and gc skipped
+        save_skips(sv(*old(self))) ==> sv(*final(self)).saved == sv(*old(self)).saved && sv(*final(self)).current && *final(fs) == *old(fs),
+        // otherwise the saved entries are exactly the entries of the build in progress ...
+        !save_skips(sv(*old(self))) ==> sv(*final(self)).saved.files == sv(*old(self)).next,
+        // ... and either the manifest reached the disk (then unreferenced blobs may be gone, referenced ones never), or nothing on disk changed
+        !save_skips(sv(*old(self))) ==> {
+            ||| (sv(*final(self)).current && parse_opt(final(fs).manifest) == Some(sv(*final(self)).saved)
+                 && gc_post(VpFs { manifest: final(fs).manifest, ..*old(fs) }, *final(fs), sv(*final(self)).saved.files))
+            ||| (sv(*final(self)).current == sv(*old(self)).current && *final(fs) == *old(fs))
+        },
+        // the representation invariant survives, except in the class reported as finding F-C29-save-failed-write:
+        // the write (or the serialization) failed while on_disk_current was true
+        wf(*final(self), *final(fs)) || (!save_skips(sv(*old(self))) && sv(*old(self)).current && *final(fs) == *old(fs)),
+"""
+
+
 def build(ctx, res):
     s = ctx.src(L)
     vf = VerusFile(HEADER)
     items = []
 
     def add(it, label=None):
+        if it.kind == "fn":
+            it.at_start("    broadcast use group_store_axioms;")
         items.append(it)
         vf.item(it, label)
 
@@ -85,6 +114,7 @@ def build(ctx, res):
     add(s.item("const", "SCHEMA_VERSION"))
     it = s.item("const", "BLOB_MAGIC")
     it.replace(": &[u8; 4]", ": &'static [u8; 4]", rule="E10 const reference types get the 'static lifetime Verus asks for")
+    it.replace("const BLOB_MAGIC", "pub const BLOB_MAGIC", rule="V1 visibility only")
     add(it)
 
     it = s.item("struct", "FileEntry")
@@ -118,16 +148,23 @@ def build(ctx, res):
     f.spec("""    requires laws(),
     ensures
         fs_same_files(*final(fs), *old(fs)), final(fs).last_blob_read == old(fs).last_blob_read,
-        final(fs).last_manifest_read is Some ==> final(fs).last_manifest_read == old(fs).manifest,
-        r is Some ==> {
-            &&& sv(r.unwrap()).next == IMap::<Seq<char>, EntryV>::empty()
-            &&& sv(r.unwrap()).saved.schema == SCHEMA_VERSION
-            &&& sv(r.unwrap()).saved.key == global_key@
-            &&& (sv(r.unwrap()).saved.files, sv(r.unwrap()).current) == open_spec(final(fs).last_manifest_read, global_key@)
-            &&& wf(r.unwrap(), *final(fs))
-        },""")
+        blocking ==> r is Some,
+        r is Some ==> open_post(*old(fs), *final(fs), r.unwrap(), global_key@),""")
     f.at_start("    proof { lemma_fv_empty(); }")
     add(f, "Store::open_with_lock")
+
+    f = s.item("fn", "open", impl="Store")
+    f.name_return("r")
+    f.replace("global_key: &str)", "global_key: &str, %s)" % FS, rule="G1 ghost disk parameter")
+    f.replace("Self::open_with_lock(root, global_key, true)", "Self::open_with_lock(root, global_key, true, Tracked(fs))", rule="G1")
+    f.spec("    requires laws(),\n    ensures open_post(*old(fs), *final(fs), r, global_key@),")
+    add(f, "Store::open")
+    f = s.item("fn", "try_open", impl="Store")
+    f.name_return("r")
+    f.replace("global_key: &str)", "global_key: &str, %s)" % FS, rule="G1 ghost disk parameter")
+    f.replace("Self::open_with_lock(root, global_key, false)", "Self::open_with_lock(root, global_key, false, Tracked(fs))", rule="G1")
+    f.spec("    requires laws(),\n    ensures fs_same_files(*final(fs), *old(fs)), r is Some ==> open_post(*old(fs), *final(fs), r.unwrap(), global_key@),")
+    add(f, "Store::try_open")
 
     # ---- entry / load ----------------------------------------------------------------------------------------
     f = s.item("fn", "entry", impl="Store")
@@ -146,12 +183,15 @@ def build(ctx, res):
     f.replace("rel: &str)", "rel: &str, %s)" % FS, rule="G1 ghost disk parameter")
     f.replace("fs::read(self.root.join(rel)).ok()?", "vp_fs_read(&self.root, rel, Tracked(fs))?", rule="O14")
     f.replace("data.strip_prefix(BLOB_MAGIC.as_slice())?", "vp_strip_prefix(data.as_slice(), BLOB_MAGIC.as_slice())?", rule="O12")
+    f.replace("u32::from_le_bytes(*version)", "vp_u32_from_le_bytes(*version)", rule="O5")
     f.spec("    ensures\n" + READ_POST % "rel@")
+    f.at_start("    broadcast use lemma_blob_decode_steps;")
     add(f, "Store::read_blob")
 
     f = s.item("fn", "write_blob", impl="Store")
     f.name_return("r")
     f.replace("payload: &[u8])", "payload: &[u8], %s)" % FS, rule="G1 ghost disk parameter")
+    f.replace("SCHEMA_VERSION.to_le_bytes()", "vp_u32_to_le_bytes(SCHEMA_VERSION)", rule="O5")
     f.replace("content_hash(&data)", "vp_content_hash(&data)", rule="O14")
     f.sub(r"format!\(\"\{FRAGMENT_DIR\}/\{\}/\{\}\.\{FRAGMENT_EXT\}\", &name\[\.\.2\], name\)", "vp_blob_rel(&name)", count=1, rule="O4")
     f.replace("self.root.join(&rel)", "vp_join(&self.root, &rel)", rule="O14")
@@ -260,10 +300,106 @@ def build(ctx, res):
     f.at_end(UPD_GHOST)
     add(f, "Store::set_tests")
 
+    # ---- save / gc -----------------------------------------------------------------------------------------------
+    f = s.item("fn", "save", impl="Store")
+    f.replace("pub fn save(&mut self)", "pub fn save(&mut self, %s)" % FS, rule="G1 ghost disk parameter")
+    f.replace("self.next_files == self.manifest.files", "vp_files_eq(&self.next_files, &self.manifest.files)", rule="O13")
+    f.replace("toml::to_string(&self.manifest)", "vp_toml_to_string(&self.manifest)", rule="O14")
+    f.sub(r"log::debug!\([^;]*\);", "", count=2, rule="E6 log::debug! statements dropped")
+    f.replace("veryl_path::atomic_write(self.root.join(MANIFEST), manifest.as_bytes())", "vp_atomic_write_manifest(&self.root, &manifest, Tracked(fs))", rule="O14")
+    f.replace("self.gc();", "self.gc(Tracked(fs));", rule="G1")
+    f.spec(SAVE_SPEC)
+    f.at_start("    proof { lemma_fv_empty(); }")
+    add(f, "Store::save")
+
+    f = s.item("fn", "gc", impl="Store")
+    f.replace("fn gc(&self)", "fn gc(&self, %s)" % FS, rule="G1 ghost disk parameter")
+    f.sub(r"let referenced: HashSet<PathBuf> = self\s*\.manifest\s*\.files\s*\.values\(\)\s*\.flat_map\(\|x\| x\.fragment\.iter\(\)\.chain\(x\.diagnostics\.iter\(\)\)\)\s*\.map\(\|x\| self\.root\.join\(x\)\)\s*\.collect\(\);",
+          "let referenced: VpPathSet = vp_referenced(&self.manifest.files, &self.root);", count=1, rule="O15")
+    f.replace("fs::read_dir(self.root.join(FRAGMENT_DIR))", "vp_read_fragment_dirs(&self.root)", rule="O15")
+    f.replace("fs::read_dir(dir.path())", "vp_read_dir_files(&dir)", rule="O15")
+    f.replace("for dir in dirs.flatten() {", "let mut vp_i: usize = 0;\n        while vp_i < dirs.len() {\n            let dir = &dirs[vp_i];\n            vp_i += 1;",
+              rule="O15 (.flatten() is part of the outlined read_dir) + E7' `for x in V { S }` -> `let mut k = 0; while k < V.len() { let x = &V[k]; k += 1; S }` "
+                   "(Verus for-loops do not support `continue`; the increment precedes S, so `continue` keeps its meaning)")
+    f.replace("files.flatten()", "files", rule="O15 (.flatten() is part of the outlined read_dir)")
+    f.replace("file.path()", "vp_entry_path(&file)", rule="O15")
+    f.replace("path.extension().is_some_and(|x| x == FRAGMENT_EXT)", "vp_has_fragment_ext(&path)", rule="O15")
+    f.replace("referenced.contains(&path)", "vp_set_contains(&referenced, &path)", rule="O15")
+    f.replace("let _ = fs::remove_file(&path);", "vp_remove_file(&path, Tracked(fs));", rule="O15")
+    f.spec("    requires laws(),\n    ensures gc_post(*old(fs), *final(fs), fv(self.manifest.files@)),")
+    GC_INV = "        invariant gc_post(*old(fs), *fs, fv(self.manifest.files@)), forall|p: Seq<char>| referenced@.contains(p) <==> is_referenced(fv(self.manifest.files@), p),"
+    f.loop_spec(1, GC_INV)
+    add(f, "Store::gc")
+
     vf.raw("}", "impl")
     text = vf.finish()
-    expect = ["Store::open_with_lock", "Store::entry", "Store::read_blob", "Store::write_blob", "Store::load", "Store::load_diagnostics",
-              "Store::put", "Store::set_diagnostics", "Store::keep", "Store::invalidate", "Store::set_dependents", "Store::set_tests",
+    # the outer loop header is created by rule E7', so its invariant is attached to the rewritten text by anchor (as in units/tokpos)
+    anchor = "        while vp_i < dirs.len() {\n"
+    if text.count(anchor) != 1:
+        raise ExtractError("gc: anchor of the rewritten outer loop not found")
+    text = text.replace(anchor, "        while vp_i < dirs.len()\n" + GC_INV + "\n            vp_i <= dirs.len(),\n        decreases dirs.len() - vp_i,\n        {\n", 1)
+    expect = ["Store::open_with_lock", "Store::open", "Store::try_open", "lemma_reopen_same_key", "lemma_reopen_other_key", "lemma_finding_save_failed_write",
+              "vp_scenario_roundtrip", "Store::entry", "Store::read_blob", "Store::write_blob", "Store::load", "Store::load_diagnostics",
+              "Store::save", "Store::gc", "Store::put", "Store::set_diagnostics", "Store::keep", "Store::invalidate", "Store::set_dependents", "Store::set_tests",
               "lemma_le32_roundtrip", "lemma_from_le32_inj", "lemma_blob_roundtrip", "lemma_blob_decode_only_encoded",
-              "lemma_fv_insert", "lemma_fv_contains", "vp_is_none_or"]
-    return [VerusJob("store", text, vf, expect, canaries=CANARIES, items=items, trusted=TRUSTED, rlimit=60)]
+              "lemma_blob_decode_steps", "lemma_fv_insert", "lemma_fv_contains", "vp_is_none_or"]
+    return [VerusJob("store", text, vf, expect, canaries=CANARIES, items=items, trusted=TRUSTED, rlimit=60), kani_job(ctx, res)]
+
+
+KANI_USE = """    use std::collections::{BTreeMap, HashSet};
+    use std::fs;
+    use std::path::{Path, PathBuf};
+    use self::env::*;
+"""
+
+KANI_TRUSTED = {
+    r"kani::assume\(len <= MAX[PD]\)": "bound of the codec stand-ins: payload <= 16 bytes, file <= 24 bytes (content unconstrained)",
+}
+
+KANI_HARNESSES = [
+    ("blob_roundtrip", "bounded", "Store::write_blob + Store::read_blob", "payload.len()<=16"),
+    ("blob_reuse_skips_write", "bounded", "Store::write_blob", "payload.len()==4"),
+    ("blob_reject_other_shapes", "bounded", "Store::read_blob", "file.len()<=24"),
+    ("blob_missing_is_miss", "proof", "Store::read_blob", None),
+    ("le_bytes_contract", "proof", "u32::to_le_bytes / u32::from_le_bytes (the contracts assumed by the Verus job)", None),
+    ("canary_blob_shapes", "canary", "Store::read_blob", None),
+]
+
+
+def kani_job(ctx, res):
+    """header codec on the real std functions; the fs / hash / path calls are outlined by the same O14/O4 rules as in the Verus job
+    (without the ghost disk) into the one-file stub disk of harness.rs::env"""
+    s = ctx.src(L)
+    items, parts = [], []
+
+    def add(it):
+        items.append(it)
+        parts.append(it.render())
+
+    for name in ("MANIFEST", "FRAGMENT_DIR", "FRAGMENT_EXT", "SCHEMA_VERSION", "BLOB_MAGIC"):
+        add(s.item("const", name))
+    it = s.item("struct", "FileEntry")
+    it.strip_derive("Serialize", "Deserialize")
+    it.drop_attr(r"serde\(")
+    add(it)
+    it = s.item("struct", "Manifest")
+    it.strip_derive("Serialize", "Deserialize")
+    add(it)
+    add(s.item("struct", "Store"))
+    parts.append("impl Store {")
+    f = s.item("fn", "read_blob", impl="Store")
+    f.replace("fs::read(self.root.join(rel)).ok()?", "vp_fs_read(&self.root, rel)?", rule="O14")
+    add(f)
+    f = s.item("fn", "write_blob", impl="Store")
+    f.replace("content_hash(&data)", "vp_content_hash(&data)", rule="O14")
+    f.sub(r"format!\(\"\{FRAGMENT_DIR\}/\{\}/\{\}\.\{FRAGMENT_EXT\}\", &name\[\.\.2\], name\)", "vp_blob_rel(&name)", count=1, rule="O4")
+    f.replace("self.root.join(&rel)", "vp_join(&self.root, &rel)", rule="O14")
+    f.replace("!path.exists()", "!vp_exists(&path)", rule="O14")
+    f.sub(r"if let Some\(parent\) = path\.parent\(\) \{\s*let _ = fs::create_dir_all\(parent\);\s*\}", "vp_create_parent_dir(&path);", count=1, rule="O14")
+    f.replace("veryl_path::atomic_write(&path, &data)", "vp_atomic_write_blob(&path, &data)", rule="O14")
+    f.sub(r"log::debug!\([^;]*\);", "", count=1, rule="E6 log::debug! statements dropped")
+    add(f)
+    parts.append("}")
+    lib = "pub mod cache {\n" + KANI_USE + "\n".join(parts) + "\n" + ctx.unit_file("store", "harness.rs") + "}\n"
+    hs = [Harness("cache::harness::" + n, kind=k, fn=fn, bound=b) for n, k, fn, b in KANI_HARNESSES]
+    return KaniJob("codec", lib, hs, items=items, trusted=KANI_TRUSTED, jobs=2, timeout=2400, per_harness_timeout=900)
